@@ -65,6 +65,25 @@ impl PCheck for C16 {
     }
     fn case(&self, p: &C16Prep, hay: &str, start: usize, mut rep: Option<&mut Report>) -> Verdict {
         let n = p.pat.ngroups;
+        // Which groups "participated" is a matter of the match semantics: the slots of the first
+        // match are those of the reference model's first successful path (None for a group that did
+        // not participate or was reset by a later iteration -- never an empty leftover).
+        if n > 0 && p.pat.features.quantifiers > 0 && start == 0 {
+            let idx = crate::engine::CpIndex::new(hay);
+            let cps = engine::to_cps(hay);
+            let (ro, _st) = esref::exec(&p.pat, &cps, 0, esref::RefLimits { max_steps: 20_000, max_depth: 5_000 });
+            if let esref::RefOutcome::Match(rm) = ro {
+                let want = engine::ref_to_ematch(&rm, &idx);
+                if let Guarded::Ok(Some(got)) = engine::find_first(&p.re, hay, 0, engine::Api::Utf8, FUEL) {
+                    if let Some(r) = rep.as_deref_mut() {
+                        r.inc("first_match_slots_checked_against_reference");
+                    }
+                    if got.range == want.range && got.caps != want.caps {
+                        return Verdict::Violated { property: "C16", what: "capture slots of the first match are not those of the groups' last participation".into(), observed: got.show(), expected: want.show() };
+                    }
+                }
+            }
+        }
         let res = engine::guarded(FUEL, || {
             let mut problems: Vec<(String, String, String)> = Vec::new();
             let mut count = 0usize;
